@@ -7,6 +7,7 @@ import Driver.HashCmd
 import Driver.CollectCmd
 import Driver.DryCmd
 import Driver.TopCmd
+import Driver.CatalogCmd
 /-! `driver`: one request per line on stdin, one answer per line on stdout. -/
 namespace Driver
 
@@ -17,6 +18,7 @@ structure St where
   prov : ProvSt := {}
   hash : HashSt := {}
   collect : CollectSt := {}
+  catalog : CatalogSt := {}
 
 def step (st : St) (line : String) : St × String :=
   let (cmd, args) := parseLine line
@@ -44,6 +46,9 @@ def step (st : St) (line : String) : St × String :=
   else if cmd.startsWith "c10." then
     let (s, out) := dryHandle st.engine cmd args
     ({ st with engine := s }, out)
+  else if cmd.startsWith "catalog." then
+    let (s, out) := catalogHandle st.catalog cmd args
+    ({ st with catalog := s }, out)
   else if cmd == "ping" then (st, "pong")
   else (st, "bad-op")
 
